@@ -227,7 +227,11 @@ void harness(void) {
 	}
 #endif
 	VERIF_expect_no_error = 0;
+#if NLEAVES >= 2
 	if (leafv[0].level > 2 && leafv[NLEAVES - 1].level == 0) WITNESS_POINT("block signed, every leaf chain reaches the root");
+#else
+	if (leafv[0].level > 2) WITNESS_POINT("block signed, every leaf chain reaches the root");
+#endif
 #else
 	/* ---- MODE 2: reset == new ---- */
 	u8 xb[33]; KSI_DataHash *x = sym_hash(ctx, xb);
@@ -273,6 +277,10 @@ void harness(void) {
 		CHECK(a != NULL && b != NULL && a->fn == b->fn && a->levelOverhead == b->levelOverhead && a->c == (void *)s && b->c == (void *)fresh,
 			"C16.H3 reset signer runs the same leaf processors in the same order as a new one (metadata first, then mask)");
 	}
+#ifdef STATE_ONLY
+	VERIF_expect_no_error = 0;
+	if (level == 7) WITNESS_POINT("reset signer compared with a new one");
+#else
 	/* behaviour: the same leaf gives the same root */
 	KSI_BlockSignerHandle *ha = NULL, *hb = NULL;
 	res = KSI_BlockSigner_addLeaf(s, x, level, md, &ha);
@@ -288,6 +296,7 @@ void harness(void) {
 	CHECK(s->builder->rootNode->level == fresh->builder->rootNode->level && KSI_DataHash_equals(s->builder->rootNode->hash, fresh->builder->rootNode->hash),
 		"C16.H3 a reset signer computes the same root for the same leaf as a new signer");
 	VERIF_expect_no_error = 0;
-	if (level == 7) WITNESS_POINT("reset signer compared with a new one");
+	if (level == 7) WITNESS_POINT("reset signer and new signer computed the same root");
+#endif /* STATE_ONLY */
 #endif
 }
